@@ -11,11 +11,14 @@ RULE = ('one case = one history on a file of a temp-dir mount (C:), run once wit
         '(a) WRITE# item lists (strings over all bytes but 22/00/1A with lengths 0,1,2,…,253,254,255, integers, singles, '
         'doubles incl. range limits) in 1..3 OPEN/CLOSE sessions (OUTPUT then APPEND, or APPEND on a host-made file '
         'with/without trailing 1A), read back by INPUT# statements with a different grouping, EOF after every statement, '
-        'LOF/LOC in both modes; (b) PRINT# lines (lengths 0..255) read back by LINE INPUT#/INPUT$; (c) fuzz: host-made '
+        'LOF/LOC in both modes; (a2) the same with the variables of WRITE#/PRINT#/INPUT#/LINE INPUT# typed by DEFSTR/DEFINT/'
+        'DEFSNG/DEFDBL over letter ranges instead of a sigil (also explicit sigils against the DEFtype, array elements, '
+        'mixed lists; expected type from the generator\'s own DEFtype table); (b) PRINT# lines (lengths 0..255) read back by LINE INPUT#/INPUT$; (c) fuzz: host-made '
         'files over a separator-dense alphabet read with random INPUT#/LINE INPUT#/INPUT$/EOF/LOF/LOC, and writer '
         'fuzz with WIDTH and partial PRINT#; non-trivial = history with at least one item/line/byte')
 EXPLANATION = ('theorems (PcbV.Props.C24): write_input_roundtrip, print_lineinput_roundtrip, eof_exactly_after_last, '
-               'lof_is_length, append_after_existing over all item lists/histories of the model; correspondence: every '
+               'lof_is_length, append_after_existing, var_type_from_completed_name, write_input_roundtrip_vars over all item '
+               'lists/histories/DEFtype tables of the model; correspondence: every '
                'history is executed by a real Session (OPEN/WRITE#/PRINT#/WIDTH#/INPUT#/LINE INPUT#/INPUT$/EOF/LOF/LOC/'
                'CLOSE), the words returned by the real input_entry, the values, EOF/LOF/LOC and the host file bytes are '
                'compared with the Lean model; oracle: the list of items written (strings exact, numbers by printed form '
@@ -75,6 +78,31 @@ class Impl(object):
             self.numtext[key] = out.replace(b'\r', b'').replace(b'\n', b'').replace(b'\xff', b'')
         return self.numtext[key]
 
+    @staticmethod
+    def var_parts(var):
+        """var = [name as written in the statement, sigil the variable must have (explicit, or from the DEFtype
+        table kept by the generator)] -> (full scalar/array name with sigil, '(i)' or '', base name as written)"""
+        written, sig = var
+        base, idx = (written[:written.index('(')], written[written.index('('):]) if '(' in written else (written, '')
+        full = base if base[-1] in '$%!#' else base + sig
+        return full, idx, base
+
+    def set_var(self, var, value):
+        """assign through explicitly typed names only (the setup must not depend on what is being tested)"""
+        full, idx, _ = self.var_parts(var)
+        if idx:
+            self.s.set_variable('TQ' + full[-1], value)
+            self.ex(('%s%s=TQ%s' % (full, idx, full[-1])).encode())
+        else:
+            self.s.set_variable(full, value)
+
+    def get_var(self, var):
+        full, idx, _ = self.var_parts(var)
+        if idx:
+            self.ex(('TQ%s=%s%s' % (full[-1], full, idx)).encode())
+            return self.s.get_variable('TQ' + full[-1])
+        return self.s.get_variable(full)
+
     def hook(self):
         """record (word, sep) of every real input_entry call on file #1"""
         try:
@@ -98,6 +126,7 @@ class Impl(object):
         """Execute a history; returns (protocol ops, results, final host bytes, observations for the oracle)."""
         s = self.s
         self.ex(b'CLOSE')
+        self.ex(b'DEFSNG A-Z')
         try:
             os.remove(self.path())
         except EnvironmentError:
@@ -105,7 +134,14 @@ class Impl(object):
         ops, res, obs = [], [], []
         for op in hist:
             k = op[0]
-            if k == 'h':
+            if k == 'T':
+                # DEFSTR/DEFINT/DEFSNG/DEFDBL a-b
+                kw = {'s': b'DEFSTR', 'i': b'DEFINT', 'f': b'DEFSNG', 'd': b'DEFDBL'}[op[1]]
+                out = self.ex(kw + b' ' + op[2].encode() + b'-' + op[3].encode())
+                if out.strip():
+                    res.append('DEFERR')
+                ops.append('T%s%s%s' % (op[1], op[2], op[3]))
+            elif k == 'h':
                 with open(self.path(), 'wb') as f:
                     f.write(unhx(op[1]))
                 ops.append('h' + op[1])
@@ -124,17 +160,25 @@ class Impl(object):
             elif k == 'W':
                 names, its, texts = [], [], []
                 for j, it in enumerate(op[1]):
+                    var = it[2] if it[0] == 's' and len(it) > 2 else it[3] if it[0] == 'n' and len(it) > 3 else None
                     if it[0] == 's':
                         nm = 'S%d$' % j
-                        s.set_variable(nm, unhx(it[1]))
-                        its.append('s' + it[1])
+                        payload = unhx(it[1])
                         texts.append(None)
                     else:
                         nm = 'N%d%s' % (j, it[1])
-                        s.set_variable(nm, it[2])
-                        t = self.number_text(it[1], it[2])
-                        its.append('n' + hx(t))
-                        texts.append(t)
+                        payload = it[2]
+                        texts.append(self.number_text(it[1], it[2]))
+                    if var is None:
+                        s.set_variable(nm, payload)
+                        its.append('s' + it[1] if it[0] == 's' else 'n' + hx(texts[-1]))
+                    else:
+                        # the statement names the variable as written (maybe without sigil: DEFtype decides);
+                        # the model derives str/num from the completed name
+                        self.set_var(var, payload)
+                        nm = var[0]
+                        its.append('v%s/%s' % (hx(self.var_parts(var)[2].encode()),
+                                               it[1] if it[0] == 's' else hx(texts[-1])))
                     names.append(nm)
                 stmt = b'WRITE #1' + b''.join(b', ' + n.encode() for n in names)
                 out = self.ex(stmt)
@@ -144,8 +188,13 @@ class Impl(object):
                 obs.append(('W', texts))
                 ops.append('W' + ','.join(its))
             elif k in ('P', 'Q'):
-                s.set_variable('S0$', unhx(op[1]))
-                out = self.ex(b'PRINT #1, S0$' + (b';' if k == 'Q' else b''))
+                if len(op) > 2:
+                    self.set_var(op[2], unhx(op[1]))
+                    nm = op[2][0].encode()
+                else:
+                    s.set_variable('S0$', unhx(op[1]))
+                    nm = b'S0$'
+                out = self.ex(b'PRINT #1, ' + nm + (b';' if k == 'Q' else b''))
                 if out.strip():
                     res.append('WERR')
                 ops.append(k + op[1])
@@ -164,26 +213,39 @@ class Impl(object):
                 ops.append('d%d' % op[1])
             elif k == 'i':
                 del self.records[:]
-                names = ['R%d%s' % (j, '$' if t == 's' else t) for j, t in enumerate(op[1])]
-                out = self.ex(b'INPUT #1' + b''.join(b', ' + n.encode() for n in names))
+                if len(op) > 2:
+                    tvars = op[2]
+                else:
+                    tvars = [['R%d%s' % (j, '$' if t == 's' else t), '$' if t == 's' else t] for j, t in enumerate(op[1])]
+                for var in tvars:
+                    # a target that is not assigned must not look like a value read
+                    self.set_var(var, b'<unset>' if var[1] == '$' else 12345)
+                out = self.ex(b'INPUT #1' + b''.join(b', ' + var[0].encode() for var in tvars))
                 recs = list(self.records)
                 # one model op per input_entry call actually made (a statement stops at the first error)
                 for j, rec in enumerate(recs[:len(op[1])]):
-                    ops.append('is' if op[1][j] == 's' else 'in')
+                    if len(op) > 2:
+                        ops.append('iv' + hx(self.var_parts(tvars[j])[2].encode()))
+                    else:
+                        ops.append('is' if op[1][j] == 's' else 'in')
                     res.append(rec)
-                vals = [s.get_variable(nm) for nm in names]
+                vals = [self.get_var(var) for var in tvars]
                 obs.append(('i', op[1], vals, out, recs))
             elif k == 'l':
-                s.set_variable('R$', b'<unset>')
-                out = self.ex(b'LINE INPUT #1, R$')
-                if b'Input past end' in out:
+                var = op[1] if len(op) > 1 else ['R$', '$']
+                self.set_var(var, b'<unset>' if var[1] == '$' else 12345)
+                out = self.ex(b'LINE INPUT #1, ' + var[0].encode())
+                if b'Type mismatch' in out:
+                    # the target is not a string variable: nothing is read (not an observation of the oracle)
+                    res.append('E13')
+                elif b'Input past end' in out:
                     res.append('E62')
                     obs.append(('l', None))
                 else:
-                    v = s.get_variable('R$')
+                    v = self.get_var(var)
                     res.append('l' + hx(v))
                     obs.append(('l', v))
-                ops.append('l')
+                ops.append('lv' + hx(self.var_parts(var)[2].encode()) if len(op) > 1 else 'l')
             elif k == 'r':
                 s.set_variable('R$', b'<unset>')
                 out = self.ex(b'R$=INPUT$(%d,#1)' % op[1])
@@ -356,6 +418,123 @@ def read_plan(rng, items):
 
 
 ALPHA = [34, 34, 44, 44, 13, 13, 10, 10, 32, 32, 0, 26, 9, 48, 49, 50, 45, 46, 69, 65, 66, 97, 255, 38, 72]
+
+
+SIGIL_OF = {'s': '$', 'i': '%', 'f': '!', 'd': '#'}
+
+
+def gen_deftab(rng, fixed):
+    """DEFtype statements and the resulting table letter -> sigil, kept by the generator itself
+    (the oracle's expected type of an unsigiled variable comes from this table, not from the interpreter)"""
+    tab = ['!'] * 26
+    if fixed:
+        stmts = [('s', 'R', 'S'), ('i', 'I', 'N'), ('d', 'D', 'D')]
+    else:
+        stmts = []
+        for _ in range(rng.randrange(1, 5)):
+            a = rng.randrange(26)
+            b = rng.choice([a, a, min(25, a + rng.randrange(0, 6)), rng.randrange(26)])
+            stmts.append((rng.choice('ssssiidf'), chr(65 + a), chr(65 + b)))
+        if rng.random() < 0.8 and not any(k == 's' and a <= b for k, a, b in stmts):
+            a = rng.randrange(26)
+            stmts.append(('s', chr(65 + a), chr(65 + min(25, a + rng.randrange(0, 4)))))
+    ops = []
+    for k, a, b in stmts:
+        # a reversed range is accepted and changes nothing
+        for i in range(ord(a) - 65, ord(b) - 65 + 1):
+            tab[i] = SIGIL_OF[k]
+        if rng.random() < 0.3:
+            a, b = a.lower(), b.lower()
+        ops.append(['T', k, a, b])
+    return ops, tab
+
+
+def pick_var(rng, tab, sigil, tag, num, idx):
+    """a target/source variable of type `sigil`, written with or without sigil, scalar or array element"""
+    cands = [chr(65 + i) for i in range(26) if tab[i] == sigil]
+    r = rng.random()
+    if cands and r < 0.7:
+        letter, explicit = rng.choice(cands), ''
+    else:
+        # explicit sigil, also on a letter whose DEFtype says otherwise
+        letter, explicit = chr(65 + rng.randrange(26)), sigil
+    if rng.random() < 0.3:
+        letter = letter.lower()
+    if rng.random() < 0.3:
+        return ['%s%s%s(%d)' % (letter, tag[1], explicit, idx), sigil]
+    return ['%s%s%d%s' % (letter, tag[0], num, explicit), sigil]
+
+
+def gen_deftype_roundtrip(rng, soft, fixed):
+    """WRITE#/INPUT# where the variables of both statements get their type from DEFSTR/DEFINT/DEFSNG/DEFDBL
+    (no sigil), from an explicit sigil, or are array elements; mixed in one statement"""
+    tops, tab = gen_deftab(rng, fixed)
+    hist, items = list(tops), []
+    nsess = 1 if fixed else rng.choice([1, 1, 2])
+    gi = 0
+    for si in range(nsess):
+        hist.append(['oO'] if si == 0 else ['oA'])
+        for wi in range(rng.randrange(1, 3) if not fixed else 2):
+            its = []
+            for j in range(rng.randrange(1, 5) if not fixed else 3):
+                if fixed:
+                    it = [['s', hx(b'hello, "x'.replace(b'"', b"'") + bytes(bytearray([48 + gi])))], gen_number(rng),
+                          ['s', hx(b'')]][j]
+                elif rng.random() < 0.55:
+                    it = ['s', hx(gen_string(rng, soft))]
+                else:
+                    it = gen_number(rng)
+                sig = '$' if it[0] == 's' else it[1]
+                if fixed:
+                    cands = [chr(65 + i) for i in range(26) if tab[i] == sig]
+                    var = ['%sX%d' % (cands[gi % len(cands)], gi), sig] if cands else ['AX%d%s' % (gi, sig), sig]
+                else:
+                    var = pick_var(rng, tab, sig, 'XZ', gi, j)
+                its.append(it + [var])
+                gi += 1
+            hist.append(['W', its])
+            items += its
+        hist.append(['c'])
+    plan = [['oI'], ['e'], ['f']]
+    i = 0
+    while i < len(items):
+        n = min(len(items) - i, rng.choice([1, 2, 3, 4]))
+        tvars = []
+        for j, it in enumerate(items[i:i + n]):
+            sig = '$' if it[0] == 's' else it[1]
+            if fixed:
+                cands = [chr(65 + q) for q in range(26) if tab[q] == sig]
+                tvars.append(['%sY%d' % (cands[(i + j) % len(cands)], i + j), sig] if cands
+                             else ['AY%d%s' % (i + j, sig), sig])
+            else:
+                tvars.append(pick_var(rng, tab, sig, 'YV', i + j, j))
+        plan.append(['i', ['s' if it[0] == 's' else it[1] for it in items[i:i + n]], tvars])
+        plan.append(['e'])
+        i += n
+    plan.append(['c'])
+    return hist + plan, items, tab
+
+
+def gen_deftype_lines(rng, fixed):
+    """PRINT#/LINE INPUT# with string variables named without sigil under DEFSTR, or with it, or array elements"""
+    tops, tab = gen_deftab(rng, fixed)
+    hist, lines = list(tops) + [['oO']], []
+    for li in range(3 if fixed else rng.randrange(1, 5)):
+        l = gen_line(rng)
+        var = ['%sX%d' % ('RS'[li % 2], li), '$'] if fixed else pick_var(rng, tab, '$', 'XZ', li, li)
+        hist.append(['P', hx(l), var])
+        lines.append(l)
+    hist += [['c'], ['oI'], ['e']]
+    for li, l in enumerate(lines):
+        if not fixed and rng.random() < 0.2:
+            # a numeric target: Type mismatch, nothing is consumed
+            nums = [chr(65 + i) for i in range(26) if tab[i] != '$']
+            hist.append(['l', ['%sY%d' % (rng.choice(nums), li), '!']] if nums and rng.random() < 0.5
+                        else ['l', ['QY%d%%' % li, '%']])
+        var = ['%sY%d' % ('SR'[li % 2], li), '$'] if fixed else pick_var(rng, tab, '$', 'YV', li, li)
+        hist += [['l', var], ['e']]
+    hist.append(['c'])
+    return hist, lines
 
 
 def gen_fuzz_read(rng):
@@ -654,6 +833,29 @@ def do_lines(ctx, impl, soft, pending, kind=None):
     return hist
 
 
+def do_deftype(ctx, impl, soft, pending, fixed=False):
+    """the variables of the file statements are typed by DEFtype statements (or explicit sigils, or are array elements)"""
+    rng = ctx.rng
+    full, items, tab = gen_deftype_roundtrip(rng, soft, fixed)
+    label = 'write-input-deftype'
+    obs, data = run_history(ctx, impl, soft, full, label, pending)
+    ctx.case(('dt', soft, repr(full)))
+    ctx.count('deftype:items', len(items))
+    for op in full:
+        if op[0] in ('W', 'i'):
+            for var in ([it[-1] for it in op[1]] if op[0] == 'W' else op[2]):
+                bare = var[0].split('(')[0][-1] not in '$%!#'
+                ctx.count('deftype:%s%s:%s' % ('bare' if bare else 'sigil', '-array' if '(' in var[0] else '', var[1]))
+    oracle_roundtrip(ctx, impl, soft, full, obs, data, label, None)
+    hist, lines = gen_deftype_lines(rng, fixed)
+    label = 'print-lineinput-deftype'
+    obs, data = run_history(ctx, impl, soft, hist, label, pending)
+    ctx.case(('dl', soft, repr(hist)))
+    ctx.count('deftype:lines', len(lines))
+    oracle_lines(ctx, impl, soft, hist, lines, obs, data, label)
+    return full
+
+
 def do_fuzz(ctx, impl, soft, pending):
     rng = ctx.rng
     hist = gen_fuzz_read(rng) if rng.random() < 0.6 else gen_fuzz_write(rng)
@@ -676,6 +878,7 @@ def flush(ctx, pending):
 
 def run(ctx):
     n_rt, n_ln, n_fz = (110, 70, 160) if ctx.quick else (1200, 600, 2000)
+    n_dt = 10 if ctx.quick else 250
     impls = {}
     try:
         for soft in (False, True):
@@ -693,6 +896,12 @@ def run(ctx):
             else:
                 do_roundtrip(ctx, impl, soft, pending, 'lf')
                 do_lines(ctx, impl, soft, pending, 'lf-inner')
+            # variables typed by DEFSTR/DEFINT/DEFSNG/DEFDBL instead of a sigil: one fixed history, then random ones
+            do_deftype(ctx, impl, soft, pending, fixed=True)
+            for i in range(n_dt):
+                h = do_deftype(ctx, impl, soft, pending)
+                if i < 1:
+                    ctx.sample({'soft': soft, 'history': h})
             for i in range(n_rt):
                 kind = None
                 if soft and i % 10 == 3:
